@@ -439,6 +439,9 @@ func StoreKey(name string) sdk.StoreKey {
 func StoreWrites(ctx sdk.Context, store string) int { return 0 }
 func ScopeWrites(ctx sdk.Context, store string) int { return 0 }
 
+// StoreAccesses: what the context's gas meter was charged for store accesses (symbolically: the number of accesses).
+func StoreAccesses(ctx sdk.Context, store string) uint64 { return ctx.GasMeter().GasConsumed() }
+
 // Uninterpreted functions (deterministic, otherwise arbitrary).
 func UFBool(name string, args ...interface{}) bool {
 	return strings.TrimSpace(first(next("uf:UFBool"))) == "true"
